@@ -157,6 +157,39 @@ def _const_text(mod, node, env):
     return None
 
 
+def const_dict_keys(mod, node, depth=0):
+    """the keys of a module-level dictionary expression: a display whose keys are constant texts, with `**{k: v for ..}`
+    comprehensions over literal tables / range(<constants>) and `**NAME` of another such dictionary spelt out; a name
+    bound once to such an expression; or None"""
+    if depth > 6:
+        return None
+    if isinstance(node, ast.Name):
+        binds = [s_ for s_ in mod.tree.body if isinstance(s_, (ast.Assign, ast.AnnAssign))
+                 and any(isinstance(t, ast.Name) and t.id == node.id for t in (s_.targets if isinstance(s_, ast.Assign) else [s_.target]))]
+        if len(binds) == 1 and binds[0].value is not None:
+            return const_dict_keys(mod, binds[0].value, depth + 1)
+        return None
+    if isinstance(node, ast.DictComp):
+        return const_strings(mod, ast.ListComp(elt=node.key, generators=node.generators), depth + 1)
+    if isinstance(node, ast.Call) and isinstance(node.func, ast.Name) and node.func.id == 'dict' and not node.args and all(k.arg for k in node.keywords):
+        return [k.arg for k in node.keywords]
+    if not isinstance(node, ast.Dict):
+        return None
+    out = []
+    for k, v in zip(node.keys, node.values):
+        if k is None:
+            sub = const_dict_keys(mod, v, depth + 1)
+            if sub is None:
+                return None
+            out += sub
+        else:
+            t = _const_text(mod, k, {})
+            if t is None:
+                return None
+            out.append(t)
+    return out
+
+
 def const_strings(mod, node, depth=0, env=None):
     """the strings a module-level constant expression denotes as a collection (literal displays -- also with starred
     comprehensions over literal tables / range(<constants>) and f-string elements --, set()/frozenset()/tuple()/list()
